@@ -17,6 +17,7 @@ import Golib.Proof.C06Assemble
 import Golib.Proof.C05Exact
 import Golib.Proof.C06Mask
 import Golib.Proof.C06Count
+import Golib.Proof.C06Facts
 
 namespace Golib.C06
 open Golib Golib.C05
@@ -246,5 +247,11 @@ example : (Trie.ofPatterns [[97], [99], [97, 98, 99, 100, 101]]).bind
     (Trie.ofPatterns [[97], [99], [97, 98, 99, 100, 101]]).bind
       (fun t => replace t [97, 98, 99, 100, 101] [42]) = some [42] := by
   constructor <;> decide +kernel
+
+/-- The source expressions and statements of `algz/trie.go` the model is written against
+(re-extracted by go/ast on every run into `Golib/Gen/FactsC06.lean`) are the ones the model
+mirrors; a revert of F4 or a single-token change in one of them breaks this obligation
+independently of the random search. -/
+theorem c06_facts : SourceFacts := c06_facts_holds
 
 end Golib.C06
